@@ -29,7 +29,7 @@ Rec == ndJsonDeserialize(IOEnv.TRACE)
 VARIABLES l,      \* next line
           rl,     \* line of the reset of the current execution (its cfg is the context)
           ms,     \* [f |-> part-C state, cp |-> control frames pulled]
-          fresh,  \* nothing but is_exhausted has been called since construction
+          fresh,  \* no output has been produced since construction
           skip
 vars == << l, rl, ms, fresh, skip >>
 
@@ -78,22 +78,21 @@ OutOK(c, t, frame) ==
           FixToD(t.x), frame)
 ObsOK(c, s, o) == o.pulls = FPulled(Kind(c), s.f) /\ o.cpulls = s.cp
 
-\* n consecutive outputs: final state and the number of outputs that found the signal exhausted
-RECURSIVE Run(_, _, _, _)
+\* n consecutive outputs: the last step and the number of outputs that found the signal exhausted beforehand
+\* (folds, not RECURSIVE operators: see FRun in Converter.tla)
+RunOne(c, a) == [t |-> TStep(c, a.t.s), cnt |-> IF TExh(c, a.t.s) THEN a.cnt + 1 ELSE a.cnt]
 Run(c, s, n, cnt) ==
-  LET t  == TStep(c, s)
-      c2 == cnt + (IF TExh(c, s) THEN 1 ELSE 0)
-  IN IF n = 1 THEN [t |-> t, cnt |-> c2]
-     ELSE IF t.s.cp + c2 < 0 THEN [t |-> t, cnt |-> c2]      \* (never: forces evaluation step by step)
-     ELSE Run(c, t.s, n - 1, c2)
-\* until_exhausted().take(cap): every yielded frame must be the output of its position
-RECURSIVE Collect(_, _, _, _, _)
-Collect(c, s, items, k, cap) ==        \* k = items matched so far
-  IF k = cap \/ TExh(c, s) THEN [ok |-> k = Len(items), s |-> s, n |-> k]
-  ELSE IF k >= Len(items) THEN [ok |-> FALSE, s |-> s, n |-> k]
-  ELSE LET t == TStep(c, s) IN
-       IF OutOK(c, t, items[k + 1]) THEN Collect(c, t.s, items, k + 1, cap)
-       ELSE [ok |-> FALSE, s |-> s, n |-> k]
+  FoldLeft(LAMBDA a, j : RunOne(c, a), [t |-> [x |-> FixZero, i |-> 0, s |-> s], cnt |-> cnt], [j \in 1..n |-> j])
+\* until_exhausted().take(cap): every yielded frame must be the output of its position, and the iterator
+\* must have stopped exactly where the positions say (cap reached or exhausted)
+CollectOne(c, a, item, cap) ==
+  IF ~a.ok THEN a
+  ELSE IF a.n = cap \/ TExh(c, a.s) THEN [a EXCEPT !.ok = FALSE]          \* an item beyond the end
+  ELSE LET t == TStep(c, a.s) IN
+       IF OutOK(c, t, item) THEN [ok |-> TRUE, s |-> t.s, n |-> a.n + 1] ELSE [a EXCEPT !.ok = FALSE]
+Collect(c, s, items, cap) ==
+  LET a == FoldLeft(LAMBDA acc, item : CollectOne(c, acc, item, cap), [ok |-> TRUE, s |-> s, n |-> 0], items)
+  IN [a EXCEPT !.ok = a.ok /\ (a.n = cap \/ TExh(c, a.s))]
 \* constant ratio r on a fresh converter: N outputs with N in {C, C+1}, C = ceil((R+1)/r), i.e.
 \* N r >= R+1 and (N-2) r < R+1; when additions have rounded, up to the accumulated rounding drift
 CountOK(c, s0, s1, n) ==
@@ -144,7 +143,7 @@ Judge ==
                  /\ FPositionExact(x.t.s.f),
           s |-> x.t.s]
     [] Ev.ev = "collect" ->
-         LET x == IF Ev.r.k = "items" THEN Collect(c, ms, Ev.r.v, 0, Ev.a.n) ELSE [ok |-> FALSE, s |-> ms, n |-> 0] IN
+         LET x == IF Ev.r.k = "items" THEN Collect(c, ms, Ev.r.v, Ev.a.n) ELSE [ok |-> FALSE, s |-> ms, n |-> 0] IN
          [ok |-> /\ x.ok
                  /\ ObsOK(c, x.s, Ev.o)
                  /\ Ev.o.exh_after = TExh(c, x.s)
@@ -168,7 +167,7 @@ TOp ==
   /\ LET j == Judge IN
      IF j.ok
        THEN /\ ms' = j.s
-            /\ fresh' = (fresh /\ Ev.ev = "is_exhausted")
+            /\ fresh' = (fresh /\ Ev.ev \in {"is_exhausted", "set_ratio"})
             /\ (IF HeapOK THEN TRUE ELSE PrintT(<< "HEAP", l, Ev.ev >>))
             /\ UNCHANGED << rl, skip >>
        ELSE /\ PrintT(<< "REJECT", l, Ev.ev >>)
